@@ -232,7 +232,10 @@ def frames(prog: Program, rep: Report) -> None:
     # release: (X, Y) = ll2xy(lon, lat); columns renamed lon->X, lat->Y
     cp = prog.role_func("release", "clean_position")
     conv = [n for n in walk_no_nested(cp.node) if isinstance(n, ast.Assign) and isinstance(n.value, ast.Call) and unparse(n.value.func).endswith("ll2xy")]
-    ok = len(conv) == 1 and [unparse(a) for a in conv[0].value.args] == ["df['lon']", "df['lat']"] and unparse(conv[0].targets[0]) in ("(X, Y)", "X, Y")
+    from ..program import xunparse as _xu
+
+    xa = [_xu(a, cp.node) for a in conv[0].value.args] if len(conv) == 1 else []
+    ok = len(conv) == 1 and len(xa) == 2 and xa[0].endswith("['lon']") and xa[1].endswith("['lat']") and xa[0][: -len("['lon']")] == xa[1][: -len("['lat']")] and unparse(conv[0].targets[0]) in ("(X, Y)", "X, Y")
     rep.check(rule, cp.qual, "X, Y = grid.ll2xy(df['lon'], df['lat'])", ok, what_bad=f"got {[short(c) for c in conv]}", what_ok="argument and result order", loc=cp.loc())
     stores = {unparse(n.targets[0]): unparse(n.value) for n in walk_no_nested(cp.node) if isinstance(n, ast.Assign) and isinstance(n.targets[0], ast.Subscript)}
     ren = [n for n in walk_no_nested(cp.node) if isinstance(n, ast.Call) and unparse(n.func).endswith(".rename")]
@@ -258,23 +261,28 @@ def frames(prog: Program, rep: Report) -> None:
         return None
 
     okg = False
-    pm = {id(c): p for p in ast.walk(cp.node) for c in ast.iter_child_nodes(p)}
-    for c in conv:
-        cur = c
+    from ..paths import enumerate_paths as _paths
+
+    verdicts = []
+    for p_ in _paths(cp.node.body):
+        reaches = any(any(x is c for c in conv for x in ast.walk(s_[1])) for s_ in p_.steps if s_[0] in ("stmt", "maybe"))
+        if not reaches:
+            continue
         conds = []
-        while id(cur) in pm:
-            par = pm[id(cur)]
-            if isinstance(par, ast.If):
-                in_body = any(any(x is cur for x in ast.walk(s_)) for s_ in par.body)
-                e = expand_locals(par.test, cp.node, defs)
-                conds.append(e if in_body else ast.UnaryOp(op=ast.Not(), operand=e))
-            cur = par
-        if conds:
-            test = conds[0] if len(conds) == 1 else ast.BoolOp(op=ast.And(), values=conds)
-            tb = bool_table(ast.fix_missing_locations(test), atom)
-            if tb is not None and {"has_X", "has_Y"} <= set(tb[0]):
-                atoms, table = tb
-                okg = all((not val) or (not (dict(zip(atoms, asg))["has_X"] and dict(zip(atoms, asg))["has_Y"])) for asg, val in table.items())
+        for t, taken in p_.conds():
+            e = expand_locals(t, cp.node, defs)
+            conds.append(e if taken else ast.UnaryOp(op=ast.Not(), operand=e))
+        if not conds:
+            verdicts.append(False)
+            continue
+        test = conds[0] if len(conds) == 1 else ast.BoolOp(op=ast.And(), values=conds)
+        tb = bool_table(ast.fix_missing_locations(test), atom)
+        if tb is None or not {"has_X", "has_Y"} <= set(tb[0]):
+            verdicts.append(False)
+            continue
+        atoms, table = tb
+        verdicts.append(all((not val) or (not (dict(zip(atoms, asg))["has_X"] and dict(zip(atoms, asg))["has_Y"])) for asg, val in table.items()))
+    okg = bool(verdicts) and all(verdicts)
     rep.check(rule, cp.qual, "grid coordinates given in the file are used unchanged", okg, what_bad="the lon/lat conversion is not limited to files without X or Y", what_ok="conversion only if X or Y is absent", loc=cp.loc())
 
 
